@@ -354,6 +354,9 @@ func execXchg(f []string) vlib.Res {
 	if len(cands) >= 6 {
 		tags += ",xchg-burst"
 	}
+	if strings.HasPrefix(f[5], "0:") || strings.Contains(f[5], ";0:") || strings.Contains(f[5], ";0t") {
+		tags += ",xchg-id0"
+	}
 	return vlib.Res{Impl: impl, Oracle: or, Tags: tags}
 }
 
